@@ -347,7 +347,8 @@ def run(pr, repo):
     frames.query_is_pure(pr, repo, ['propka.calculations.squared_distance', 'propka.calculations.distance',
                                     'propka.bonds.BondMaker.check_distance', 'propka.bonds.BondMaker.has_bond'],
                          'distance and bond criterion')
-    pr.assumptions += ['A-REAL: floor(x/box_size) over the reals (margin 0.01 A >> rounding)',
+    pr.assumptions += ['residue identity = label as in the code (chain + number, no insertion code): inputs with insertion-code twins of one residue type are outside what is shown here (known finding D9, DESIGN 10.5)',
+                       'A-REAL: floor(x/box_size) over the reals (margin 0.01 A >> rounding)',
                        'n > 2 atoms: each pair is treated as in the two-atom proof because find_bonds_for_atoms / '
                        '_disjoint examine every pair of a box / of two boxes (CV) and the offsets cover every neighbour '
                        'direction once (OF); this pair-independence step is argued, not machine-checked']
